@@ -262,8 +262,42 @@ def gen_namebl(rng):
     return case(ID['namebl'], [f, 0, 0, 0, t0], mf, HELO, v4(192, 0, 2, 1), dns=_dns(rng, 14), files=files)
 
 
+# ---------------------------------------------------------------- fromdomain
+def _v6(s):
+    import ipaddress
+    return ipaddress.IPv6Address(s).packed
+
+
+MX_ADDR = [v4(10, 1, 2, 3), v4(172, 16, 0, 1), v4(172, 32, 0, 1), v4(172, 15, 255, 255), v4(192, 168, 1, 1), v4(169, 254, 0, 9),
+           v4(192, 0, 2, 55), v4(198, 51, 100, 1), v4(203, 0, 113, 200), v4(192, 18, 0, 1), v4(192, 19, 255, 255), v4(192, 20, 0, 1),
+           v4(127, 0, 0, 1), v4(127, 255, 1, 1), v4(0, 0, 0, 0), v4(0, 1, 2, 3), v4(8, 8, 8, 8), v4(1, 1, 1, 1), v4(128, 0, 0, 1),
+           _v6('::1'), _v6('::'), _v6('2001:10::5'), _v6('2001:1f::5'), _v6('2001:20::5'), _v6('2001:db8::1'), _v6('2001:db9::1'),
+           _v6('fe80::1'), _v6('febf::1'), _v6('fec0::1'), _v6('feff::1'), _v6('fe00::1'), _v6('2a00:1450::1'), _v6('::2'),
+           _v6('::ffff:0:1') , _v6('0:0:0:0:0:fffe:a00:1')]
+FD_VALUES = [b'=1', b'=2', b'=3', b'=4', b'=5', b'=6', b'=7', b'=7', b'=0', b'=-1', b'', b'=8', b'=15', b'=x']
+
+
+def gen_fromdomain(rng):
+    f, userdir, _ = _flags(rng)
+    if rng.random() < 0.5:
+        f |= 32
+    files = _conf(rng, b'fromdomain', FD_VALUES, userdir)
+    r = rng.random()
+    if r < 0.35:
+        mx = b''
+    elif r < 0.7:
+        # all of one kind
+        kind = rng.choice([MX_ADDR[:12], MX_ADDR[12:16], MX_ADDR[19:21], MX_ADDR[21:31], MX_ADDR[:16]])
+        mx = b''.join(rng.choice(kind) for _ in range(rng.choice([1, 2, 3])))
+    else:
+        mx = b''.join(rng.choice(MX_ADDR) for _ in range(rng.choice([1, 2, 3, 5])))
+    st = rng.choice([0, 1, 2, 3, 0xfe, 0xfd])
+    mf = rng.choice([b'foo@example.org', b'foo@example.org', b''])
+    return case(ID['fromdomain'], [f, 0, 0, st], mf, HELO, v4(192, 0, 2, 1), mx=mx, files=files)
+
+
 GENS = [(gen_badmailfrom, 5), (gen_helo, 4), (gen_ipbl, 4), (gen_soberg, 1), (gen_check2822, 1), (gen_forceesmtp, 2), (gen_badcc, 2),
-        (gen_nomail, 2), (gen_dnsbl, 3), (gen_namebl, 2)]
+        (gen_nomail, 2), (gen_dnsbl, 3), (gen_namebl, 2), (gen_fromdomain, 3)]
 
 
 def gen_cases(rng, tier):
